@@ -122,56 +122,122 @@ func ruleX4(p *Prog, r *Report, rule string) *qf {
 }
 
 // writesToExisting: the stores (in f and everything it calls in the module) whose target is not inside an
-// object allocated by the storing function itself — i.e. writes to receiver, arguments, globals.
+// object allocated on the way — i.e. writes to f's receiver and arguments, to globals, or through pointers
+// loaded from memory. A helper that writes through one of its own parameters (a *strings.Builder it is
+// handed, an output slice) writes "existing" memory only if what the caller passes there is itself not
+// fresh in the caller.
 func writesToExisting(p *Prog, f *ssa.Function, seen map[*ssa.Function]bool) []string {
-	if f == nil || seen[f] || !p.InModule(f) {
+	sum := writeSummary(p, f, map[*ssa.Function]*writeSum{}, 0)
+	if sum == nil {
 		return nil
 	}
-	seen[f] = true
-	var out []string
-	freshBase := func(v ssa.Value) bool {
-		for d := 0; d < 8; d++ {
-			switch t := v.(type) {
-			case *ssa.Alloc, *ssa.MakeSlice, *ssa.MakeMap:
-				return true
-			case *ssa.FieldAddr:
-				v = t.X
-			case *ssa.IndexAddr:
-				v = t.X
-			case *ssa.Slice:
-				v = t.X
-			default:
-				return false
+	out := append([]string{}, sum.other...)
+	for _, ws := range sum.viaParam {
+		out = append(out, ws...)
+	}
+	return out
+}
+
+type writeSum struct {
+	other    []string         // writes to globals / through loaded pointers / unknown bases
+	viaParam map[int][]string // writes into memory reachable from parameter #i (by address arithmetic only)
+}
+
+// writeBase classifies the object an address points into: "fresh" (allocated in this function), a
+// parameter index, or neither.
+func writeBase(f *ssa.Function, v ssa.Value) (fresh bool, param int) {
+	for d := 0; d < 8; d++ {
+		switch t := v.(type) {
+		case *ssa.Alloc, *ssa.MakeSlice, *ssa.MakeMap:
+			return true, -1
+		case *ssa.Parameter:
+			for i, prm := range f.Params {
+				if prm == t {
+					return false, i
+				}
 			}
+			return false, -1
+		case *ssa.FieldAddr:
+			v = t.X
+		case *ssa.IndexAddr:
+			v = t.X
+		case *ssa.Slice:
+			v = t.X
+		case *ssa.ChangeType:
+			v = t.X
+		default:
+			return false, -1
 		}
-		return false
+	}
+	return false, -1
+}
+
+func writeSummary(p *Prog, f *ssa.Function, memo map[*ssa.Function]*writeSum, depth int) *writeSum {
+	if f == nil || !p.InModule(f) {
+		return nil
+	}
+	if s, ok := memo[f]; ok {
+		return s // nil while in progress (recursion): the cycle's own stores are counted where they occur
+	}
+	memo[f] = nil
+	sum := &writeSum{viaParam: map[int][]string{}}
+	record := func(addr ssa.Value, msg string) {
+		fresh, prm := writeBase(f, addr)
+		switch {
+		case fresh:
+		case prm >= 0:
+			sum.viaParam[prm] = append(sum.viaParam[prm], msg)
+		default:
+			sum.other = append(sum.other, msg)
+		}
 	}
 	for _, b := range f.Blocks {
 		for _, in := range b.Instrs {
 			switch t := in.(type) {
 			case *ssa.Store:
-				if !freshBase(t.Addr) {
-					out = append(out, fmt.Sprintf("%s: store through %s", p.pos(t.Pos()), describe(t.Addr)))
-				}
+				record(t.Addr, fmt.Sprintf("%s: store through %s", p.pos(t.Pos()), describe(t.Addr)))
 			case *ssa.MapUpdate:
-				if !freshBase(t.Map) {
-					out = append(out, fmt.Sprintf("%s: map update", p.pos(t.Pos())))
-				}
+				record(t.Map, fmt.Sprintf("%s: map update", p.pos(t.Pos())))
 			case ssa.CallInstruction:
-				if c := t.Common().StaticCallee(); c != nil {
+				com := t.Common()
+				if c := com.StaticCallee(); c != nil {
 					if p.InModule(c) {
-						out = append(out, writesToExisting(p, c, seen)...)
-					} else if si := classifyStd(c); si.Class == stdMutatesArg && si.MutArg < len(t.Common().Args) && !freshBase(t.Common().Args[si.MutArg]) {
-						out = append(out, fmt.Sprintf("%s: %s rewrites its argument", p.pos(in.Pos()), c))
+						if cs := writeSummary(p, c, memo, depth+1); cs != nil {
+							sum.other = append(sum.other, cs.other...)
+							for i, ws := range cs.viaParam {
+								if i >= len(com.Args) {
+									sum.other = append(sum.other, ws...)
+									continue
+								}
+								fresh, prm := writeBase(f, com.Args[i])
+								switch {
+								case fresh:
+								case prm >= 0:
+									sum.viaParam[prm] = append(sum.viaParam[prm], ws...)
+								default:
+									sum.other = append(sum.other, ws...)
+								}
+							}
+						}
+					} else if si := classifyStd(c); si.Class == stdMutatesArg && si.MutArg < len(com.Args) {
+						record(com.Args[si.MutArg], fmt.Sprintf("%s: %s rewrites its argument", p.pos(in.Pos()), c))
 					}
 				}
-				for _, a := range t.Common().Args {
+				for _, a := range com.Args {
 					if mc, ok := a.(*ssa.MakeClosure); ok {
-						out = append(out, writesToExisting(p, mc.Fn.(*ssa.Function), seen)...)
+						// a closure's writes: through its own parameters they hit what its caller passes (unknown
+						// here: counted), through captured variables they hit this function's locals or beyond
+						if cs := writeSummary(p, mc.Fn.(*ssa.Function), memo, depth+1); cs != nil {
+							sum.other = append(sum.other, cs.other...)
+							for _, ws := range cs.viaParam {
+								sum.other = append(sum.other, ws...)
+							}
+						}
 					}
 				}
 			}
 		}
 	}
-	return out
+	memo[f] = sum
+	return sum
 }
